@@ -146,6 +146,9 @@ func init() {
 type streamFrame struct {
 	Name string
 	B    []byte
+	// Rejected: a well-formed frame of a kind the parser has no decoder for. The stream may hand the
+	// consumer a nil message for it or nothing at all; every other frame must still arrive intact.
+	Rejected bool
 }
 
 // streamFrames returns the frame alphabet: every frame parses and re-encodes to itself in a
@@ -163,13 +166,20 @@ func streamFrames() (ok []streamFrame, dropped []string) {
 			dropped = append(dropped, name+": does not re-encode to itself")
 			return
 		}
-		ok = append(ok, streamFrame{name, b})
+		ok = append(ok, streamFrame{Name: name, B: b})
 	}
 	mk("echo", wire.New("echo_request").Set("Xid", 0x0e0e0e01))
 	mk("hello", wire.New("hello").Set("Xid", 0x0e0e0e02).Add("Elements", wire.New("hello_elem_versionbitmap").Set("Type", 1).SetB("Bitmaps", []byte{0, 0, 0, 0x10})))
 	mk("error17", corpus.ErrorMsg(1, 2, corpus.Payload(5)).Set("Xid", 0x0e0e0e03))
 	mk("packet-in", corpus.PacketIn(1, corpus.Match(corpus.OxmByName("OXM_OF_IN_PORT", false, 1)), corpus.EthFrame("ipv4-udp")).Set("Xid", 0x0e0e0e04))
 	mk("error3012", corpus.ErrorMsg(3, 4, corpus.Payload(3000)).Set("Xid", 0x0e0e0e05))
+	// OFPT_ROLE_REPLY (type 25, 24 bytes): well-formed, sent by real switches, not decoded by Parse
+	role := []byte{4, 25, 0, 24, 0x0e, 0x0e, 0x0e, 0x06, 0, 0, 0, 2, 0, 0, 0, 0, 1, 2, 3, 4, 5, 6, 7, 8}
+	if m, err, pn := safeParse(append([]byte{}, role...)); pn == nil && (err != nil || m == nil) {
+		ok = append(ok, streamFrame{Name: "role-reply", B: role, Rejected: true})
+	} else {
+		dropped = append(dropped, "role-reply: the parser does not reject it")
+	}
 	return
 }
 
